@@ -543,8 +543,8 @@ class _Gen:
             else:
                 L.append("%s %s;" % (t, n))
             self.globals.append((n, t))
-        for _ in range(self.draw(st.integers(1, 2))):
-            t = "int" if not self.arrays else self.pick(INT_NAMES)
+        for _ in range(self.draw(st.integers(1, 3))):
+            t = "int" if not self.arrays else self.pick(["short", "unsigned short", "long", "char", "unsigned char", "long long", "short"] if self.chance(70) else INT_NAMES)
             n = self.fresh("ga")
             cnt = self.pick([2, 3, 4, 8])
             if self.chance(70):
